@@ -7,6 +7,7 @@ import Sx.Lemmas.LoopBound
 import Sx.Props.C19
 import Sx.Lemmas.CastFacts
 import Sx.Props.C12
+import Sx.Props.C14
 /-
   C08 — memory safety for all air data, chip states and buffer sizes.
 
@@ -504,5 +505,117 @@ theorem C08_cast_packet_rssi : SafeI castBad (fun _ => True) (fun _ => True) rxG
     · exact SafeI_fail _
 
 end casts2
+
+section beacon
+open Sx.Model DM
+
+attribute [local irreducible] DM.rread DM.sread DM.swrite DM.bwrite DM.bread DM.rawbread DM.cb DM.modH DM.setH
+
+instance (u : UB) : Decidable (castBad u) := by unfold castBad; exact inferInstance
+
+abbrev CS (x : DM α) : Prop := SafeI castBad (fun _ => True) (fun _ => True) x
+
+theorem cs_ub (u : UB) (h : u ≠ .castRange) : CS (DM.ub u : DM α) := SafeI_ub u h
+
+theorem cs_checkFskOok : CS checkFskOok := by
+  unfold checkFskOok
+  apply SafeI_getH_bind; intro h _
+  apply SafeI_ite
+  · intro _; exact SafeI_fail _
+  · intro _; exact SafeI_pure _
+
+theorem cs_packetStore (i : Nat) (v : UInt8) : CS (packetStore i v) := by
+  unfold packetStore
+  apply SafeI_getH_bind; intro h _
+  apply SafeI_ite
+  · intro _; exact SafeI_setH _ trivial
+  · intro _; exact cs_ub _ (by decide)
+
+theorem cs_packetCopy (off : Nat) (d : List UInt8) : CS (packetCopy off d) := by
+  unfold packetCopy
+  apply SafeI_getH_bind; intro h _
+  apply SafeI_ite
+  · intro _; exact SafeI_setH _ trivial
+  · intro _; exact cs_ub _ (by decide)
+
+theorem cs_withRemaining (n : UInt16) : CS (fskOokTxWithRemaining n) := by
+  unfold fskOokTxWithRemaining
+  dsimp only
+  apply SafeI_bind (SafeI_modH _ (fun _ _ => trivial)); intro _
+  apply SafeI_getH_bind; intro h _
+  apply SafeI_ite
+  · intro _; exact SafeI_bwrite _ _
+  · intro _
+    apply SafeI_bind (cs_ub _ (by decide)); intro _
+    exact SafeI_bwrite _ _
+
+theorem cs_txSet (data : List UInt8) : CS (fskOokTxSetForTransmission data) := by
+  unfold fskOokTxSetForTransmission
+  apply SafeI_bind cs_checkFskOok; intro _
+  apply SafeI_getH_bind; intro h _
+  dsimp only
+  apply SafeI_ite
+  · intro _; exact SafeI_fail _
+  · intro _
+    apply SafeI_ite
+    · intro _; exact SafeI_fail _
+    · intro _
+      apply SafeI_ite
+      · intro _; exact SafeI_fail _
+      · intro _
+        apply SafeI_ite
+        · intro _
+          apply SafeI_bind (cs_packetStore _ _); intro _
+          apply SafeI_bind (cs_packetCopy _ _); intro _
+          exact cs_withRemaining _
+        · intro _
+          apply SafeI_bind (cs_packetCopy _ _); intro _
+          exact cs_withRemaining _
+
+theorem cs_append (reg : Nat) (v m : UInt8) : CS (appendRegister reg v m) := by
+  unfold appendRegister
+  apply SafeI_bind (SafeI_rread _); intro _
+  exact SafeI_swrite _ _
+
+/-- **the timer selection of the beacon for every `uint32_t` interval** - zero, the documented
+    range 1..133620 ms (the table of C14) and everything above it (every intermediate value is a
+    positive float and `sx127x_timer_coefficient` saturates): no float is converted out of range -/
+theorem C08_beacon_timers_defined (n : Nat) (h2 : n < 2 ^ 32) : ∃ t, beaconTimers n = some t := by
+  rcases Nat.lt_or_ge 133620 n with h | h
+  · exact beacon_some_large n h h2
+  · rcases Nat.eq_zero_or_pos n with h0 | h0
+    · subst h0
+      have : (beaconTimers 0).isSome = true := by decide +kernel
+      exact Option.isSome_iff_exists.mp this
+    · obtain ⟨c1, c2, resol, ht, _⟩ := C14_every_interval n h0 h
+      exact ⟨_, ht⟩
+
+/-- **C08, `sx127x_fsk_ook_tx_start_beacon`.** For every payload, every `uint32_t` interval
+    (outside the documented range too), every handle and answer: the call never reaches a
+    float conversion out of range. -/
+theorem C08_cast_beacon (data : List UInt8) (iv : Nat) (hiv : iv < 2 ^ 32) :
+    SafeI castBad (fun _ => True) (fun _ => True) (fskOokTxStartBeacon data iv) := by
+  obtain ⟨⟨c1, c2, resol⟩, ht⟩ := C08_beacon_timers_defined iv hiv
+  unfold fskOokTxStartBeacon
+  rw [ht]
+  apply SafeI_bind cs_checkFskOok; intro _
+  apply SafeI_getH_bind; intro h _
+  apply SafeI_ite
+  · intro _; exact SafeI_fail _
+  · intro _
+    apply SafeI_ite
+    · intro _; exact SafeI_fail _
+    · intro _
+      dsimp only
+      apply SafeI_bind (SafeI_swrite _ _); intro _
+      apply SafeI_bind (SafeI_swrite _ _); intro _
+      apply SafeI_bind (SafeI_swrite _ _); intro _
+      apply SafeI_bind (SafeI_swrite _ _); intro _
+      apply SafeI_bind (SafeI_swrite _ _); intro _
+      apply SafeI_bind (cs_txSet data); intro _
+      apply SafeI_bind (cs_append _ _ _); intro _
+      exact SafeI_swrite _ _
+
+end beacon
 
 end Sx
